@@ -55,7 +55,41 @@ def count_lines(path):
     return n
 
 
-def execute(cases, out, timeout_ms=20000, dom_max=20000, steps_every=0):
+def execute(cases, out, timeout_ms=20000, dom_max=20000, steps_every=0, nproc=NPROC):
+    """Run the cases on the real library; large inputs are cut into contiguous parts that run in parallel
+    processes (records stay in input order)."""
+    total = count_lines(cases)
+    if total < 4000 or nproc <= 1:
+        return execute1(cases, out, timeout_ms, dom_max, steps_every)
+    per = (total + nproc - 1) // nproc
+    parts = []
+    with open(cases) as f:
+        k = 0
+        cur = None
+        for i, line in enumerate(f):
+            if i % per == 0:
+                if cur:
+                    cur.close()
+                pp = '%s.in%02d' % (out, k)
+                parts.append(pp)
+                cur = open(pp, 'w')
+                k += 1
+            cur.write(line)
+        if cur:
+            cur.close()
+    with ThreadPoolExecutor(max_workers=nproc) as ex:
+        list(ex.map(lambda pp: execute1(pp, pp + '.out', timeout_ms, dom_max, steps_every), parts))
+    with open(out, 'w') as fo:
+        for pp in parts:
+            with open(pp + '.out') as fi:
+                shutil.copyfileobj(fi, fo)
+            for x in (pp, pp + '.out', pp + '.out.journal'):
+                if os.path.exists(x):
+                    os.remove(x)
+    return total
+
+
+def execute1(cases, out, timeout_ms=20000, dom_max=20000, steps_every=0):
     """Run cases on the real library. A crash (abort / stack overflow / signal) or a per-case timeout is
     attributed to the case in flight via the journal, recorded as data, and the run resumes after it."""
     journal = out + '.journal'
